@@ -672,7 +672,27 @@ class EQLTranslator:
         if current_dao is None:
             raise MissingDAOError(f"No DAO class found for {base_class}.")
 
+        self._assert_variable_is_selected_or_joined(query, current_dao)
         return self._walk_attribute_chain(current_dao, attribute_names)
+
+    def _assert_variable_is_selected_or_joined(
+        self, query: Attribute, dao_class: type
+    ) -> None:
+        """
+        An attribute chain can only be expressed as a column if it starts at the selected variable or at a
+        variable whose table has been joined; otherwise the column would silently refer to the selected table.
+        """
+        leaf = AttributeChainResolver().extract_leaf_variable(query)
+        selected, _ = VariableTypeExtractor().extract(
+            self.select_like.selected_variable
+        )
+        if leaf is selected or leaf is self.select_like.selected_variable:
+            return
+        if self.join_manager.is_table_joined(dao_class):
+            return
+        raise UnsupportedQueryTypeError(
+            f"The attribute {query._attr_name_} belongs to a variable that is neither selected nor joined."
+        )
 
     def _collect_attribute_chain(self, query: Attribute) -> List[str]:
         """
